@@ -67,10 +67,28 @@ func cgroupFileWriteIfDifferent(cgroupTaskDir string, r sysutil.Resource, value 
 		klog.V(6).Infof("read before write %s and got str value, considered as MaxInt64", r.Path(cgroupTaskDir))
 		return false, nil
 	}
+	if r.ResourceType() == sysutil.CPUCFSQuotaName && sysutil.GetCurrentCgroupVersion() == sysutil.CgroupVersionV2 &&
+		isEqualCFSQuotaV2(currentValue, value) {
+		// cpu.max reads back as "<quota|max> <period>" while only the quota is written
+		return false, nil
+	}
 	if err := cgroupFileWrite(cgroupTaskDir, r, value); err != nil {
 		return false, err
 	}
 	return true, nil
+}
+
+// isEqualCFSQuotaV2 checks whether the quota in the content of cpu.max equals the quota value to write.
+func isEqualCFSQuotaV2(content, value string) bool {
+	current, err := sysutil.ParseCPUCFSQuotaV2(content)
+	if err != nil {
+		return false
+	}
+	if value == CgroupMaxSymbolStr || value == sysutil.CgroupUnlimitedSymbolStr {
+		return current == -1
+	}
+	v, err := strconv.ParseInt(value, 10, 64)
+	return err == nil && v >= 0 && v == current
 }
 
 // CgroupFileWrite writes the cgroup file with the given value.
